@@ -237,18 +237,27 @@ def make_callable(prog, dv):
     return lambda t: glom.glom(t, spec)
 
 
-def exc_name(e):
+def exc_class(e):
+    """the class the exception was raised with (glom re-raises foreign exceptions as an ad-hoc
+    subclass `GlomError.wrap(X)` of both GlomError and X: that wrapper is C04's subject)"""
     for c in type(e).__mro__:
         if not c.__name__.startswith('GlomError.wrap'):
-            return c.__name__
-    return type(e).__name__
+            return c
+    return type(e)
+
+
+def enc_err(e):
+    from glom import GlomError
+    c = exc_class(e)
+    return {'err': [c.__name__, issubclass(c, GlomError)]}
 
 
 def run_impl(case):
-    from glom import GlomError
     heap = case['heap']
     objs, dv = decode(heap)
-    ids = {id(o): a for a, o in enumerate(objs)}
+    ids = {}
+    for a, o in enumerate(objs):
+        ids.setdefault(id(o), a)       # `()` is one object: the first empty-tuple cell stands for it
     targets = [dv(t) for t in case['targets']]
     raw = []
     try:
@@ -265,7 +274,7 @@ def run_impl(case):
     results, seen = [], []
     for kind, r in raw:
         if kind == 'err':
-            results.append({'err': [exc_name(r), isinstance(r, GlomError)]})
+            results.append(enc_err(r))
             seen.append(None)
             continue
         seen.append(r)
@@ -284,7 +293,7 @@ def run_impl(case):
                     items = list(r)
                     results.append({'fresh': {'k': 'tuple', 'c': 'chain', 'v': [enc_val(x, ids) for x in items]}})
                 except Exception as e:
-                    results.append({'err': [exc_name(e), isinstance(e, GlomError)]})
+                    results.append(enc_err(e))
             else:
                 results.append(None)      # filled below, after every evaluation ran
     # contents are read after all evaluations (a later evaluation touching an earlier result shows)
@@ -322,7 +331,10 @@ def scalar(rng, fam):
 
 def gen_dict(rng, hp, n=None, cls=None):
     n = rng.choice([0, 1, 2, 2, 3]) if n is None else n
-    keys = rng.sample(KEYS, n)
+    keys = []
+    for k in rng.sample(KEYS, n):
+        if not any(k == k2 for k2 in keys):       # 1 == True: one key in Python
+            keys.append(k)
     return hp.alloc('dict', cls or rng.choice(['dict', 'dict', 'OrderedDict']),
                     [[jval(k), scalar(rng, 'any')] for k in keys])
 
@@ -357,9 +369,10 @@ def container(hp, kind, items):
         for it in items:
             if isinstance(it, dict) and 'r' in it:
                 continue
-            if it in seen:
+            pv = None if it is None else list(it.values())[0]
+            if any(pv == q for q in seen):
                 continue
-            seen.append(it)
+            seen.append(pv)
             es.append([it, jval(len(es))])
         return hp.alloc('dict', kind, es)
     raise ValueError(kind)
@@ -509,8 +522,6 @@ def gen_case(rng, tier, kinds=None):
         if base is None:
             base = t
         targets.append(t)
-    # a generator object may be consumed once only: drop repeats of targets that reach a generator
-    targets = dedup_generators(hp.heap, targets)
     # sub-spec: hide the targets behind T[...]
     if rng.random() < 0.25 and prog['kind'] != 'count':
         if rng.random() < 0.5:
@@ -524,10 +535,19 @@ def gen_case(rng, tier, kinds=None):
             prog['sub'] = prog['sub'] + [jval('missing')]
     # hypothesis-violating stream: an init that returns a pre-existing object
     if rng.random() < 0.04 and prog['kind'] in ('fold', 'sum', 'flatten', 'merge'):
-        cands = [i for i, c in enumerate(hp.heap) if c['k'] in ('list', 'dict') ]
+        # never the iterated container itself (extending a list while iterating it does not terminate)
+        tops = {t['r'] for t in targets if isinstance(t, dict) and 'r' in t}
+        for t in list(targets):
+            if isinstance(t, dict) and 'r' in t:
+                for x in hp.heap[t['r']]['v']:
+                    for y in (x if isinstance(x, list) else [x]):
+                        if isinstance(y, dict) and 'r' in y and prog['sub']:
+                            tops.add(y['r'])
+                            tops |= {z['r'] for z in hp.heap[y['r']]['v'] if isinstance(z, dict) and 'r' in z}
+        cands = [i for i, c in enumerate(hp.heap) if c['k'] in ('list', 'dict') and i not in tops]
         if cands:
             prog['init'] = {'shared': {'r': rng.choice(cands)}}
-    return {'heap': hp.heap, 'targets': targets, 'prog': prog}
+    return normalise({'heap': hp.heap, 'targets': targets, 'prog': prog}, rng)
 
 
 def gen_seq_depth(rng, hp, leaf, depth, last=None):
@@ -584,6 +604,100 @@ def dedup_generators(heap, targets):
     return out
 
 
+def refs_in(cell):
+    vals = cell['v']
+    if cell['k'] == 'dict':
+        vals = [x for kv in vals for x in kv]
+    elif cell['k'] == 'inst':
+        vals = [kv[1] for kv in vals]
+    return [x for x in vals if isinstance(x, dict) and 'r' in x]
+
+
+def reach_all(heap, v, seen):
+    if not isinstance(v, dict) or 'r' not in v or v['r'] in seen:
+        return
+    seen.add(v['r'])
+    for x in refs_in(heap[v['r']]):
+        reach_all(heap, x, seen)
+
+
+def count_paths(heap, v, acc, depth):
+    if not isinstance(v, dict) or 'r' not in v or depth > 7:
+        return
+    cell = heap[v['r']]
+    if cell['c'] == 'generator':
+        acc[v['r']] = acc.get(v['r'], 0) + 1
+    for x in refs_in(cell):
+        count_paths(heap, x, acc, depth + 1)
+
+
+def normalise(case, rng=None):
+    """canonical form of a case: one cell stands for the empty tuple (CPython has a single `()`),
+    and every generator object is reachable at most once (it can be consumed once only)"""
+    heap, targets = case['heap'], case['targets']
+    count = {}
+    for cell in heap:
+        for x in refs_in(cell):
+            count[x['r']] = count.get(x['r'], 0) + 1
+    for t in targets:
+        if isinstance(t, dict) and 'r' in t:
+            count[t['r']] = count.get(t['r'], 0) + 1
+    for a, cell in enumerate(heap):
+        if cell['c'] == 'generator' and count.get(a, 0) > 1:
+            cell['c'] = 'tuple'
+    # a generator reached along two different paths from one target is met twice
+    for t in targets:
+        paths = {}
+        count_paths(heap, t, paths, 0)
+        for a, n in paths.items():
+            if n > 1:
+                heap[a]['c'] = 'tuple'
+    # a generator below a cell that lies on a cycle is met again on the next round
+    for a, cell in enumerate(heap):
+        below = set()
+        for x in refs_in(cell):
+            reach_all(heap, x, below)
+        if a in below:
+            for b in below:
+                if heap[b]['c'] == 'generator':
+                    heap[b]['c'] = 'tuple'
+    # evaluations that would meet an already consumed generator
+    used, out = set(), []
+    for t in targets:
+        g = set()
+        generators_reached(heap, t, g, set())
+        if g & used:
+            if rng is not None and rng.random() < 0.5:
+                continue
+            for a in g & used:
+                heap[a]['c'] = 'tuple'
+        used |= g
+        out.append(t)
+    case['targets'] = targets = out
+    first_empty = None
+    remap = {}
+    for a, cell in enumerate(heap):
+        if cell['k'] == 'tuple' and cell['c'] == 'tuple' and not cell['v']:
+            if first_empty is None:
+                first_empty = a
+            else:
+                remap[a] = first_empty
+    if remap:
+        def fix(x):
+            if isinstance(x, dict) and 'r' in x and x['r'] in remap:
+                return {'r': remap[x['r']]}
+            if isinstance(x, list):
+                return [fix(y) for y in x]
+            return x
+        for cell in heap:
+            cell['v'] = [fix(x) for x in cell['v']]
+        case['targets'] = targets = [fix(t) for t in targets]
+        p = case['prog']
+        if isinstance(p.get('init'), dict):
+            p['init'] = {'shared': fix(p['init']['shared'])}
+    return case
+
+
 def generate(rng, tier, scale, kinds=None, **focus):
     n = (1800 if tier == 'quick' else 40000) * scale
     for _ in range(n):
@@ -630,8 +744,7 @@ def exhaustive():
         progs.append({'kind': 'flatten_fn', 'sub': [], 'init': 'lazy', 'levels': lv})
     for heap, t in fixed_targets():
         for p in progs:
-            ts = dedup_generators(heap, [t, t])
-            yield {'heap': heap, 'targets': ts, 'prog': p}
+            yield normalise({'heap': json.loads(json.dumps(heap)), 'targets': [t, t], 'prog': dict(p)})
 
 
 def corpus():
@@ -669,6 +782,11 @@ def nontrivial(case, verdict):
 
 
 def shrink(case):
+    for c in _shrink(case):
+        yield normalise(json.loads(json.dumps(c)))
+
+
+def _shrink(case):
     base = {k: v for k, v in case.items() if not k.startswith('impl')}
     ts = case['targets']
     for i in range(len(ts)):
